@@ -119,6 +119,46 @@ func init() {
 			Outside: []string{"buffer sizes below the protocol minimum 8192", "server-side send limits towards the client (the Hello's message limits are not retained by the server connection)", "messages of more than 3 chunks"},
 			Stubs:   []string{"TCP: in-memory pipe between two modelled connections, the server handshake runs as a goroutine (run-to-block scheduling)"},
 		},
+		&Spec{
+			ID: "C09", Title: "Tampered, truncated or forged secured chunks are rejected",
+			Quick:    Tier{Groups: G("uasc", "^VerifH_C09_"), Params: map[string]int{"c09.policies": 2}, Budget: 240 * time.Second, Solver: "cvc5"},
+			Thorough: Tier{Groups: G("uasc", "^VerifH_C09_"), Params: map[string]int{"c09.policies": 2}, Budget: 30 * time.Minute, Solver: "cvc5", Seg: true, SegCuts: 1},
+			Reach:    []string{"VerifH_C09_Tamper:tampered", "VerifH_C09_Resize:resized", "VerifH_C09_WrongKeys:forged"},
+			Bounds: []string{"a single-chunk message produced by the real send path (Basic256Sha256 and Basic128Rsa15, Sign and SignAndEncrypt), delivered through the real Receive",
+				"Tamper: every byte position of the chunk (headers included) XOR every non-zero delta (symbolic); Resize: every new length from 12 to len+48 with the size field adjusted, appended bytes symbolic; WrongKeys: a chunk secured under keys from other nonces"},
+			Outside: []string{"unforgeability itself: HMAC is an ideal MAC (a tag verifies only if a key holder issued it for the same input), AES-CBC decryption of anything but an authentic ciphertext yields unrelated bytes", "multi-chunk messages, asymmetric (OPN) chunks (C13 covers malformed OPN for panics)", "modifications of more than one byte"},
+			Stubs:   []string{"ideal MAC / collision-resistant key derivation / AES-CBC inverse pair (engine crypto model)"},
+		},
+		&Spec{
+			ID: "C10", Title: "A replayed secured chunk is never delivered twice",
+			Quick:    Tier{Groups: G("uasc", "^VerifH_C10_"), Params: map[string]int{"c09.policies": 1}, Budget: 120 * time.Second, Solver: "cvc5"},
+			Thorough: Tier{Groups: G("uasc", "^VerifH_C10_"), Params: map[string]int{"c09.policies": 2}, Budget: 10 * time.Minute, Solver: "cvc5"},
+			Reach:    []string{},
+			Bounds:   []string{"two single-chunk messages from the real send path; histories: chunk 1 replayed verbatim right after itself, and chunk 1 re-sent after chunk 2; Sign and SignAndEncrypt"},
+			Outside:  []string{"longer histories, multi-chunk messages"},
+			Stubs:    []string{"ideal crypto model as in C09"},
+		},
+		&Spec{
+			ID: "C12", Title: "Chunk streams from any conforming peer are reassembled correctly",
+			Quick:    Tier{Groups: G("uasc", "^VerifH_C12_"), Budget: 200 * time.Second, Solver: "cvc5"},
+			Thorough: Tier{Groups: G("uasc", "^VerifH_C12_"), Budget: 20 * time.Minute, Solver: "cvc5", Seg: true, SegCuts: 1},
+			Reach:    []string{"VerifH_C12_Reassembly:reassembled"},
+			Bounds: []string{"one message cut into 2 or 3 chunks at cut points from {0, 1, 4, 18, len-1, len} (empty chunks included); starting sequence number any uint32, +1 per chunk with the Part 6 wrap to any value < 1024 including 0; request ids symbolic",
+				"optionally one intermediate chunk of another request interleaved, or that other request aborted (abort must be reported for it alone)", "unsecured channel (reassembly does not depend on the policy); reference sender written from Part 6 in the harness"},
+			Outside: []string{"more than 3 chunks / more than two interleaved requests", "secured modes (C07 covers the secured round trip)"},
+			Stubs:   []string{"TCP stream model"},
+		},
+		&Spec{
+			ID: "C13", Title: "The channel receive path survives any peer byte stream",
+			Quick:    Tier{Groups: G("uasc", "^VerifH_C13_"), Params: map[string]int{"c13.len": 40, "c13.lenNone": 8, "c13.lenOPN": 14}, Budget: 240 * time.Second, Solver: "cvc5"},
+			Thorough: Tier{Groups: G("uasc", "^VerifH_C13_"), Params: map[string]int{"c13.len": 64, "c13.lenNone": 10, "c13.lenOPN": 16}, Budget: 40 * time.Minute, Solver: "cvc5"},
+			Reach:    []string{"VerifH_C13_Garbage:survived", "VerifH_C13_OPN:survived"},
+			Bounds: []string{"Garbage: one frame MSG/OPN/CLO with symbolic chunk type, channel id and 0..c13.len symbolic payload bytes (0..c13.lenNone unsecured, 0..c13.lenOPN for OPN), on client and server channels, None / Sign / SignAndEncrypt, with and without an opening instance: no panic",
+				"OPN: asymmetric header with policy in {None, Basic256Sha256, unknown}, certificate in {valid, garbage, absent}, thumbprint, payload lengths {0,7,8,255,256,300}: no panic",
+				"Buffered: 1..4 intermediate chunks with symbolic request ids against MaxChunkCount 2: total buffered chunks must stay within the limit"},
+			Outside: []string{"liveness (never blocks forever): needs fairness assumptions, not encoded", "longer payloads; decoding of unsecured bodies beyond a few bytes is C02's subject", "streams of more than one frame (except Buffered)"},
+			Stubs:   []string{"x509.ParseCertificates: known certificates resolve to their key, anything else is malformed; ideal crypto model"},
+		},
 	)
 }
 
